@@ -10,7 +10,7 @@ SEEDS="$@"; [ -z "$SEEDS" ] && SEEDS=$(cd seeded && ls -d */ | tr -d /)
 one() {
   s=$1
   W=$(mktemp -d /tmp/seedrun.XXXXXX)
-  git -C /repo archive HEAD | tar -x -C $W
+  if [ -n "$GTREE_SRC" ]; then cp -a $GTREE_SRC/. $W/; else git -C /repo archive HEAD | tar -x -C $W; fi
   if ! (cd $W && patch -p1 -s < /verif/seeded/$s/patch.diff); then echo "$s: PATCH FAILED"; rm -rf $W; return; fi
   hits=""; rules=""
   for p in $PROPS; do
